@@ -1085,6 +1085,10 @@ def writeGraph(G, output_file, graph_type, file_format='autodetect'):
     if file_format == 'dot':
 
         G = G.to_networkx()
+        # the graph name is written between double quotes, as it is
+        name = G.graph.get('name')
+        if isinstance(name, str):
+            G.graph['name'] = name.replace('\\', '\\\\').replace('"', '\\"')
         networkx.nx_pydot.write_dot(G, output_file)
 
     elif file_format == 'gml':
